@@ -5,6 +5,7 @@ package main
 import (
 	"encoding/json"
 	"flag"
+	"math/rand"
 	"fmt"
 	"os"
 	"strconv"
@@ -76,6 +77,9 @@ func main() {
 		}
 		total := len(behs)
 		if *limit > 0 && len(behs) > *limit {
+			// a seeded sample of the behaviours
+			rng := rand.New(rand.NewSource(*seed))
+			rng.Shuffle(len(behs), func(i, j int) { behs[i], behs[j] = behs[j], behs[i] })
 			behs = behs[:*limit]
 		}
 		parts := strings.Split(*shard, "/")
